@@ -124,6 +124,9 @@ func (b *Builder) RandTable(id uint64, db, name string, ncols int) *hist.Table {
 		}
 		t.Cols = append(t.Cols, c)
 	}
+	if r.Chance(1, 3) {
+		t.Optional = OptionalMetadata(r, t) // as a MySQL 8.0 master with binlog_row_metadata=FULL writes it
+	}
 	return t
 }
 
